@@ -19,7 +19,7 @@ from hvsim.core import HarnessError, BudgetExceeded, RunResult, Violation, meter
 from hvsim.simfs import SimFile, monitored
 from hvsim.world import World
 
-A_STEPS, B_STEPS = 1_000_000, 16
+A_STEPS, B_STEPS = 1_000_000, 32
 C_ALLOC, D_ALLOC = 64 << 20, 32
 INDEXED = True
 _plan_cache = {}
@@ -260,7 +260,7 @@ def _indices(prop, tier, verif_seed):
         # a huge count on a >16 MiB real sample makes the reader parse the whole file as table entries: linear in the
         # input, inside the budget, but minutes of wall time - left to the thorough tier
         sp = specs[si]
-        if sp["type"] != "fixture" and not (sp["type"] == "chain" and sp["ccase"]["kind"] == "vhdx"):
+        if sp["type"] != "fixture" and not (sp["type"] == "chain" and sp["ccase"]["kind"] == "vhdx") and not (sp["type"] == "stub" and sp["fmt"] == "vhdx"):
             return False
         return f[0] == "field" and any(t in f[2].lower() for t in ("count", "entries", "size", "length")) and isinstance(f[7], int) and f[7] >= (1 << 16)
 
